@@ -19,6 +19,23 @@ CHECKS = {
         ref="§4 C17"),
 }
 
+CHECKS["C15"] = dict(
+    technique="Coq proof by induction over the run loop and over all splits (Model/Driver.v, Props/C15.v) + functional "
+              "correspondence of the model's event list against recording observers on real Canonical/ForceBias runs",
+    text="Theorems for all observer lists, all step counts and all splits (zero-length segments included): exact call "
+         "schedule for positive/negative intervals, header once, exact step count, split = unsplit. The event list of the "
+         "model is compared with the call log of real runs through run/srun/irun; split runs are compared byte-for-byte "
+         "(atoms, log, trajectory) with the unsplit run.",
+    ref="§4 C15")
+CHECKS["C09"] = dict(
+    technique="Coq proof over all tables/steps/cycle counts/admissible oracle answers (Model/Driver.v, Props/C09.v) + "
+              "relational correspondence (oracle inference) against real MonteCarlo.irun with a recording generator",
+    text="Theorems: nothing attempted when nothing is due, exactly `cycles` attempts otherwise, only due moves, minimum "
+         "counts met (needs distinct forced slots - shown necessary), non-forced moves need positive weight, add_move guard "
+         "and its invariant. Names yielded by real runs must be reproduced by the model for admissible inferred oracle "
+         "answers; the requested p vectors are read from the recorded choice() calls.",
+    ref="§4 C09")
+
 NA_REASON = "check not built yet in this round (see DESIGN.md §8 order of construction); no weaker technique substituted"
 
 
